@@ -3,11 +3,18 @@
 use crate::report::Ctx;
 use std::path::Path;
 
+pub mod asmcommon;
+pub mod c01;
+pub mod c04;
+pub mod c05;
 pub mod c19;
 pub mod c20;
 
 pub fn run(ctx: &Ctx) -> i32 {
     match ctx.property.as_str() {
+        "C01" => c01::run(ctx),
+        "C04" => c04::run(ctx),
+        "C05" => c05::run(ctx),
         "C19" => c19::run(ctx),
         "C20" => c20::run(ctx),
         other => {
@@ -31,6 +38,9 @@ pub fn replay(ctx: &Ctx, path: &Path) -> i32 {
     let mut failed = false;
     for case in v["cases"].as_array().cloned().unwrap_or_default() {
         let r = match prop {
+            "C01" => c01::replay(ctx, &case),
+            "C04" => c04::replay(ctx, &case),
+            "C05" => c05::replay(ctx, &case),
             "C19" => c19::replay(ctx, &case),
             "C20" => c20::replay(ctx, &case),
             _ => None,
